@@ -1,7 +1,7 @@
 (* C17 - target.Path/Glob/Dir report exactly when a rebuild is needed.
    Statements only; proofs in Proof/Newer_facts.v.  For every tree, every assignment of times
    (equal stamps included: the comparison is strict), every destination, every source list. *)
-From Mage Require Import Base.Strs Base.Expand Model.Newer Proof.Newer_facts.
+From Mage Require Import Base.Strs Base.Expand Model.Newer Proof.Newer_facts Proof.Newer_more.
 
 Section W.
 Variable root : tree.
@@ -60,10 +60,37 @@ Theorem C17_missing_source : forall target pre s post,
     (if existsb (fun x => match statx x with Found t => Z.ltb target (mtime_of t) | _ => false end) pre then Yes else Error).
 Proof. exact (missing_source root env). Qed.
 
+(* ... the same for Dir (a source that cannot be walked) ... *)
+Theorem C17_missing_source_dir : forall target pre s post,
+  all_found pre -> (forall t, statx s <> Found t) ->
+  dirNewer root env target (pre ++ s :: post) =
+    (if existsb (fun x => match statx x with Found t => walkNewer target t | _ => false end) pre then Yes else Error).
+Proof. exact (missing_source_dir root env). Qed.
+
+(* ... and for Glob: a pattern without matches (or a malformed pattern) is an error unless a match of an
+   earlier pattern already proved the destination stale *)
+Theorem C17_glob_no_match : forall target pre g post,
+  globs_ok pre -> (globf g = None \/ globf g = Some []) ->
+  globNewer root env globf target (pre ++ g :: post) =
+    (if glob_stale root env globf target pre then Yes else Error).
+Proof. exact (glob_no_match root env globf). Qed.
+
 (* when all sources exist the answer does not depend on their order *)
 Theorem C17_order_irrelevant : forall target a b, all_found a -> Permutation a b ->
   pathNewer root env target a = pathNewer root env target b /\ dirNewer root env target a = dirNewer root env target b.
 Proof. exact (order_irrelevant root env). Qed.
+
+Theorem C17_order_irrelevant_glob : forall target a b, globs_ok a -> Permutation a b ->
+  globNewer root env globf target a = globNewer root env globf target b.
+Proof. exact (order_irrelevant_glob root env globf). Qed.
+
+(* the three entry points follow ONE definition: on plain files a Dir source is a Path source, and a
+   pattern matching exactly itself is a Path source *)
+Theorem C17_entry_points_agree : forall target srcs,
+  (all_files root env srcs -> dirNewer root env target srcs = pathNewer root env target srcs) /\
+  (all_found srcs -> (forall s, In s srcs -> globf s = Some [s]) ->
+     globNewer root env globf target srcs = pathNewer root env target srcs).
+Proof. intros target srcs. split; [exact (dir_is_path_on_files root env target srcs)|exact (glob_is_path_on_literals root env globf target srcs)]. Qed.
 
 (* strictness: an equal stamp is not newer, one nanosecond later is *)
 Theorem C17_strict : forall s t, statx s = Found t ->
@@ -87,7 +114,11 @@ Print Assumptions C17_path.
 Print Assumptions C17_dir.
 Print Assumptions C17_dest_time.
 Print Assumptions C17_missing_source.
+Print Assumptions C17_missing_source_dir.
+Print Assumptions C17_glob_no_match.
 Print Assumptions C17_order_irrelevant.
+Print Assumptions C17_order_irrelevant_glob.
+Print Assumptions C17_entry_points_agree.
 Print Assumptions C17_strict.
 Print Assumptions C17_scans.
 
